@@ -54,9 +54,24 @@ var MetaShapes = []map[string]string{
 	{"a": "\xff\xfe non-utf8"},
 }
 
+// BoundaryMetaShapes: the length limits of the snapshot format (key length uint8, value length uint16, count uint16).
+// Index i >= len(MetaShapes) in Meta() selects BoundaryMetaShapes[i-len(MetaShapes)].
+var BoundaryMetaShapes = []map[string]string{
+	{strings.Repeat("k", 255): "at-the-key-limit"},
+	{strings.Repeat("k", 256): "one-past-the-key-limit"},
+	{"v": strings.Repeat("v", 65535)},
+	{"v": strings.Repeat("v", 65536)},
+	{strings.Repeat("K", 300): strings.Repeat("V", 70000), "a": "1"},
+}
+
 // Meta returns a fresh copy of shape i (the code under test mutates maps it is given).
 func Meta(i int) map[string]string {
-	m := MetaShapes[i%len(MetaShapes)]
+	var m map[string]string
+	if i >= len(MetaShapes) {
+		m = BoundaryMetaShapes[(i-len(MetaShapes))%len(BoundaryMetaShapes)]
+	} else {
+		m = MetaShapes[i]
+	}
 	if m == nil {
 		return nil
 	}
@@ -65,6 +80,19 @@ func Meta(i int) map[string]string {
 		c[k] = v
 	}
 	return c
+}
+
+// MetaFits reports whether the metadata fits the storage format (255-byte keys, 65535-byte values, 65535 entries).
+func MetaFits(m map[string]string) bool {
+	if len(m) > 65535 {
+		return false
+	}
+	for k, v := range m {
+		if len(k) > 255 || len(v) > 65535 {
+			return false
+		}
+	}
+	return true
 }
 
 // MetaString renders a map deterministically.
